@@ -118,6 +118,14 @@ CHECKS["C08"] = (
     "DESIGN.md section 5 C08",
 )
 
+CHECKS["C19"] = (
+    "fault_enumeration",
+    "codec inversion monitors with an exhaustive split enumeration: EDN values are written and read back through the EDN reader and the Lisp reader, JSON values through write-str/read-str (documented coercions applied to the expectation), bencode messages through encode/decode; every byte split of every generated bencode stream is decoded with decode-all and compared with the framing oracle, including the accumulate-and-continue loop",
+    "Held on all strings to length 3 over a 15-character escape alphabet plus thousands of random nested values per codec, and on every split point (exhaustive per stream) of 300 (thorough 9600) bencode streams of 1-5 messages with framing look-alike payloads. Fault enumeration over truncation points; exploration over values.",
+    "Trusted: the harness structural equality and JSON coercion table; bencode dict keys are strings on the way in and byte strings on the way out (the encoder's documented domain); an empty remainder may be nil or empty bytes; corrupted streams are out of scope.",
+    "DESIGN.md section 5 C19",
+)
+
 NOT_BUILT ="check not built yet in this session (design in DESIGN.md section 5); not claimed until its monitor exists and is quiet on the unchanged tree"
 
 
